@@ -103,8 +103,10 @@ def row_bounds(draw, m, kinds=("eq0", "eqnz", "lower", "upper", "ranged"), cente
     return cl, cu
 
 
+# storage style: canonical (None), a fixed pattern with explicitly stored zeros, or duplicate entries
+STYLE = st.sampled_from([None, None, None, None, "zeros", "dup"])
 FMT = st.fixed_dictionaries(
-    {"jac": st.sampled_from(["coo", "csr", "csc"]), "hess": st.sampled_from(["coo", "csr", "csc"])}
+    {"jac": st.sampled_from(["coo", "csr", "csc"]), "hess": st.sampled_from(["coo", "csr", "csc"]), "jac_style": STYLE, "hess_style": STYLE}
 )
 
 
@@ -188,8 +190,21 @@ def start_point(draw, spec, allow_none=True):
     n, m = spec["n"], spec["m"]
     lb, ub = np.array(spec["lb"]), np.array(spec["ub"])
     shift = np.array(spec.get("shift", [0.0] * n))
-    kind = draw(st.sampled_from(["vec", "vec", "vec", "none", "scalar"] if allow_none else ["vec"]))
-    if kind == "none":
+    kind = draw(st.sampled_from(["vec", "vec", "vec", "none", "scalar", "corner"] if allow_none else ["vec"]))
+    if kind == "corner":
+        # every bounded component starts exactly on one of its bounds
+        raw = np.array(dvec(draw, n)) + shift
+        pick = draw(st.lists(st.booleans(), min_size=n, max_size=n))
+        x0 = []
+        for j in range(n):
+            lo, hi = lb[j], ub[j]
+            if np.isfinite(lo) and (pick[j] or not np.isfinite(hi)):
+                x0.append(float(lo))
+            elif np.isfinite(hi):
+                x0.append(float(hi))
+            else:
+                x0.append(float(raw[j]))
+    elif kind == "none":
         x0 = None
     elif kind == "scalar":
         s = dy(draw)
@@ -549,6 +564,20 @@ def any_spec(draw, families=("nlp", "qp", "degenerate"), max_n=5, max_m=3, magni
         s = draw(unbounded_spec(max_n=min(max_n, 4)))
     elif fam == "patternvar":
         s = draw(patternvar_spec(max_n=min(max_n, 4)))
+    elif fam == "concavebox":
+        # concave objective on a box, no rows: minimisers sit in corners, Newton steps at a bound may point
+        # out of the box although the bound is not active for the projection (1 + dt f'' < 0)
+        n = draw(st.integers(1, min(max_n, 3)))
+        d = [-(draw(st.integers(2, 16)) / 8.0) for _ in range(n)]
+        Q = np.diag(d)
+        for i in range(n):
+            for j in range(i):
+                Q[i, j] = Q[j, i] = draw(st.integers(-2, 2)) / 8.0
+        lo = [draw(st.integers(-24, 0)) / 8.0 for _ in range(n)]
+        s = {"n": n, "m": 0, "Q": Q.tolist(), "q": dvec(draw, n), "A": [], "b": [], "cl": [], "cu": [],
+             "lb": lo, "ub": [a + draw(st.integers(1, 24)) / 8.0 for a in lo], "fmt": draw(FMT), "family": "concavebox"}
+        s["xf"] = list(s["lb"])
+        return s
     elif fam == "intbox":
         # every variable boxed by integer-valued bounds, handed over as integer-typed arrays
         s = draw(nlp_spec(max_n=max_n, max_m=max_m))
